@@ -66,7 +66,7 @@ def showEvs (l : List (HK × Nat)) : String :=
 
 def parseFx (s : String) : Fixes :=
   match s.toList.map (· == '1') with
-  | [a, b] => ⟨a, b⟩
+  | [a, b, c] => ⟨a, b, c⟩
   | _ => current
 
 def parseArgs (m : List (String × String)) : Args :=
@@ -134,5 +134,11 @@ def cycLine (id : String) (m : List (String × String)) : String := Id.run do
   | .error f, .error g => return s!"id={id} cyc=fault:{showFault f}:{showFault g}"
   | .error f, .ok _ => return s!"id={id} cyc=DIFF-bytefault:{showFault f}"
   | .ok _, .error g => return s!"id={id} cyc=DIFF-elemfault:{showFault g}"
+
+/-- the model's `pntz` on the two words `lo`, `hi` (op `pntz=`; compared with the compiler's `pntz`, harness/hpntz.c) -/
+def pntzLine (id : String) (m : List (String × String)) : String :=
+  let fx := parseFx (sget m "fx")
+  let p : PV := ⟨(snat m "lo").toUInt64, (snat m "hi").toUInt64⟩
+  s!"id={id} r={pntz fx p}"
 
 end SafeC.DriverSort
